@@ -100,7 +100,8 @@ class BotoClientError(InvocationError):
 
     @classmethod
     def from_exception(cls, exception: Exception) -> Self:
-        response = getattr(exception, "response", {})
+        # botocore.exceptions.HTTPClientError (read timeout, closed connection) carries response=None
+        response = getattr(exception, "response", None) or {}
         response_metadata = response.get("ResponseMetadata")
         error = response.get("Error")
         return cls(
